@@ -226,6 +226,12 @@ pub trait RemoteSyncHandler {
                     .collect::<HashMap<_, _>>();
                 for (id, maybe_diff) in merge_folders {
                     if let MaybeDiff::Diff(diff) = maybe_diff {
+                        // A folder that does not exist locally was
+                        // created on remote or deleted on local by
+                        // account events that are still in conflict
+                        if account.folder_log(&id).await.is_err() {
+                            continue;
+                        }
                         account.merge_folder(&id, diff, &mut outcome).await?;
                     }
                 }
